@@ -14,7 +14,7 @@ PLANS = {
  "C02": dict(
     ex=[("chain", "chain", BASE + ["Taint", "Perturb", "ToggleNoCache", "DropBlob"], ["copy", "const", "fail"], ["all"], ["ALL"], 4, 5, ["TypeOK", "NoOpRebuild", "EditLocality", "AtMostOncePerBuild"])],
     rp=[("diamond perturbations", "diamond", BASE + ["Perturb", "DropBlob"], ["copy", "const"], ["all"], ["ALL", "d"], 9, 14, 200, False),
-        ("chain no-op/locality/cutoff", "chain", BASE + ["Perturb", "DropBlob", "EditFingerprint"], ["copy", "const", "copy2"], ["all", "minimal"], ["ALL", "c", "b"], 9, 12, 150, False),
+        ("chain no-op/locality/cutoff/relocation", "chain", BASE + ["Perturb", "DropBlob", "EditFingerprint", "Relocate"], ["copy", "const", "copy2"], ["all", "minimal"], ["ALL", "c", "b"], 9, 12, 150, False),
         ("alias", "alias", BASE + ["Retarget", "Perturb"], ["copy", "const"], ["all"], ["ALL", "c"], 9, 8, 100, False)]),
  "C13": dict(
     ex=[("chain", "chain", ["EditInput", "Build", "Taint", "ToggleNoCache", "BuildCacheOff"], ["copy", "const"], ["all"], ["ALL", "b"], 4, 5,
@@ -41,7 +41,7 @@ PLANS = {
 }
 
 
-ALLEDITS = ["EditInput", "EditCmd", "Build", "Perturb", "DropBlob", "Taint", "ToggleNoCache", "EditFingerprint", "EditShift", "EditSwap", "EditOutputs", "ChangePlatform"]
+ALLEDITS = ["EditInput", "EditCmd", "Build", "Perturb", "DropBlob", "Taint", "Relocate", "ToggleNoCache", "EditFingerprint", "EditShift", "EditSwap", "EditOutputs", "ChangePlatform"]
 # systematic batches: every history  full build ; k non-build actions ; build  (k = depth - 2), enumerated by TLC in model-checking mode
 SYS = {
  "C01": [("diamond every edit", "diamond", ALLEDITS, ["copy", "const", "copy2"], ["all"], ["ALL", "d"], 3, 4, True),
